@@ -355,16 +355,50 @@ def check_btree(out, facts):
     ctx = sym.Ctx(evl, f)
     ctx.env[f['params'][0]['v']] = ('param', 'len', 'u32')
     v, t = evl.ev(f['thir'], ctx)
-    # zero iff empty; otherwise at least one leaf node; node count is len / (2/3 occupancy)
-    s = sym.tstr(t)
+    # decided by evaluation, not by spelling: for every element count n and node size, the estimate is 0 for an empty tree,
+    # one leaf node while n / ((CAPACITY + MIN_LEN_AFTER_SPLIT) * 2 / 3) is 0, and that many internal nodes (leaf + 2*B
+    # edges) otherwise, saturating
+    import re as _re
+    per_node = (cap + mn) * 2 // 3 if isinstance(cap, int) and isinstance(mn, int) else None
     why = []
-    alts = [x for x in sym.walk(t) if x[0] == 'alt']
-    if not alts or sym.vstr(alts[0][1][1]) != '(len Eq 0:u32)':
-        why.append('no `len == 0 -> 0` early return')
-    rv = sym.vstr(v)
-    if 'saturating_mul(saturating_div((len as usize), (((CAPACITY=11 Add MIN_LEN_AFTER_SPLIT=5) Mul 2:usize) Div 3:usize))' not in rv:
-        why.append('node count is not len / ((CAPACITY + MIN_LEN_AFTER_SPLIT) * 2 / 3) with saturating arithmetic')
-    out.ob('R12.6', 'mem_size_of_btree shape [%s]' % cfg, not why, '; '.join(why) + ' :: ' + rv[:200], f['loc'])
+    n_eval = 0
+    if sym.has_opaque(t):
+        why.append('unrecognised construct: ' + sym.has_opaque(t)[0][1])
+    elif not per_node:
+        why.append('constants not found')
+    else:
+        for L in (24, 1000, 1 << 40):
+            for n in (0, 1, per_node - 1, per_node, per_node + 1, 2 * per_node - 1, 2 * per_node, 3 * per_node, 99, 100, 101, 4096, 2 ** 32 - 1):
+                edges = []
+
+                def leaf(x, n=n, L=L):
+                    x = strip(x)
+                    if isinstance(x, tuple) and x[0] == 'param' and x[1] == 'len':
+                        return n
+                    if isinstance(x, tuple) and x[0] == 'call' and x[1] == 'size_of' and len(x) > 4 and x[4]:
+                        ty = str(x[4][0])
+                        if _re.search(r'\bT\b', ty):
+                            return L
+                        m = _re.match(r'^\[usize; (\d+)\]$', ty)
+                        if m:
+                            return 8 * int(m.group(1))
+                    return None
+                evs, st = trace(t, leaf)
+                n_eval += 1
+                if st in ('AMBIG', 'PANIC'):
+                    why.append('len = %d: %s' % (n, 'a panic is reachable' if st == 'PANIC' else 'branch conditions cannot be decided'))
+                    continue
+                rets = [e for e in evs if e[0] == 'RET']
+                try:
+                    got = eval_expr(rets[0][1], leaf) if rets else eval_expr(v, leaf)
+                except ArithPanic:
+                    got = None
+                E = 8 * 2 * b if isinstance(b, int) else 96
+                nodes = n // per_node
+                want = 0 if n == 0 else (L if nodes == 0 else min(nodes * (L + E), 2 ** 64 - 1))
+                if got != want:
+                    why.append('len = %d, node payload %d bytes: estimate %s, expected %d (0 if empty; one leaf while len / %d == 0; else len / %d internal nodes)' % (n, L, got, want, per_node, per_node))
+    out.ob('R12.6', 'mem_size_of_btree shape [%s]' % cfg, not why, '; '.join(why[:3]), f['loc'], sample={'evaluations': n_eval, 'value': sym.vstr(v)[:160]})
 
 
 def run(cx, out):
